@@ -88,7 +88,7 @@ ManCid(C, m) == ChainName(C, m, Cardinality(MansOf(C)))
 
 \* ------------------------------------------------------------- algorithm --
 VARIABLES content,   \* the content being pushed
-          pc,        \* "complete" (completedManifests), "push" (PushRepoContent's pushes), "done"
+          pc,        \* "choose" (the content is picked), "complete" (completedManifests), "push" (PushRepoContent's pushes), "done"
           done,      \* manifests computed so far (the map `manifests`)
           seq,       \* ... in the order computed (manifestSeq)
           required,  \* subject identifiers some pass has waited for
@@ -104,13 +104,22 @@ VARIABLES content,   \* the content being pushed
 pvars == <<content, pc, done, seq, required, todo, progress, needMore, passes, bleft, mi, tleft, out, missing>>
 allvars == <<vars, pvars>>
 
+\* The content is picked by a first step rather than by the initial state (TLC computes initial states
+\* one by one; successors in parallel).
+NoContent == [blobs |-> {}, mans |-> <<>>, tags |-> <<>>]
 PInit ==
   /\ Init /\ imm = FALSE
-  /\ content \in Contents
-  /\ pc = "complete" /\ done = {} /\ seq = <<>> /\ required = {}
-  /\ todo = MansOf(content) /\ progress = FALSE /\ needMore = FALSE /\ passes = 1
-  /\ bleft = content.blobs /\ mi = 1 /\ tleft = DOMAIN content.tags
+  /\ content = NoContent
+  /\ pc = "choose" /\ done = {} /\ seq = <<>> /\ required = {}
+  /\ todo = {} /\ progress = FALSE /\ needMore = FALSE /\ passes = 1
+  /\ bleft = {} /\ mi = 1 /\ tleft = {}
   /\ out = "" /\ missing = {}
+Choose ==
+  /\ pc = "choose"
+  /\ content' \in Contents
+  /\ pc' = "complete"
+  /\ todo' = MansOf(content') /\ bleft' = content'.blobs /\ tleft' = DOMAIN content'.tags
+  /\ UNCHANGED <<done, seq, required, progress, needMore, passes, mi, out, missing, vars>>
 
 Finish(o, miss) == pc' = "done" /\ out' = o /\ missing' = miss
 
@@ -179,6 +188,7 @@ Return ==
   /\ UNCHANGED <<content, done, seq, required, todo, progress, needMore, passes, bleft, mi, tleft, vars>>
 
 PNext ==
+  \/ Choose
   \/ \E m \in todo : Visit(m)
   \/ EndPass
   \/ \E b \in bleft : PushOneBlob(b)
@@ -202,6 +212,7 @@ Measure ==
   LET nm == Cardinality(MansOf(content)) IN
   CASE pc = "complete" -> (nm + 1 - passes) * (nm + 1) + Cardinality(todo) + 1 + PushBudget
     [] pc = "push" -> Cardinality(bleft) + (Len(seq) + 1 - mi) + Cardinality(tleft) + 1
+    [] pc = "choose" -> 1000000
     [] OTHER -> 0
 MeasureNat == Measure >= 0
 Decreases == [][Measure' < Measure]_allvars
@@ -225,7 +236,7 @@ NeverRefused == out # "refused"
 
 Empty == blobs[TheRepo] = {} /\ DOMAIN mans[TheRepo] = {} /\ DOMAIN tags[TheRepo] = {}
 \* nothing is pushed before everything is computed, nor when the content cannot be completed
-NothingUntilComplete == (pc = "complete" \/ out \in {"panic", "nomanifest"}) => Empty
+NothingUntilComplete == (pc \in {"choose", "complete"} \/ out \in {"panic", "nomanifest"}) => Empty
 
 \* the catalogue the configuration supplies says of each computed manifest what the content says
 CatAgrees ==
@@ -261,7 +272,7 @@ TagErrorLeaves ==
 OtherReposUntouched == \A r \in Repos \ {TheRepo} : blobs[r] = {} /\ DOMAIN mans[r] = {} /\ DOMAIN tags[r] = {}
 
 PTypeOK ==
-  /\ pc \in {"complete", "push", "done"}
+  /\ pc \in {"choose", "complete", "push", "done"}
   /\ out \in {"", "ok", "nomanifest", "tag", "panic", "refused"}
   /\ done \subseteq MansOf(content) /\ todo \subseteq MansOf(content)
   /\ bleft \subseteq content.blobs /\ tleft \subseteq DOMAIN content.tags
